@@ -48,6 +48,12 @@ def run(eng, rep) -> None:
     for g in gens:
         if g.module.name.startswith("fcp_cpp"):
             extra.setdefault(g.qual, []).extend(q for q in list(jb.globals.values()) + list(jb.filters.values()) if q)
+    # lark's Transformer.transform -> semantic actions (the C++ plug-in parses reflection.fcp while generating)
+    for sites in cg.sites.values():
+        for cs in sites:
+            if any(x.endswith("Transformer.transform") for x in cs.externals):
+                for cq, cbs in cg.transformer_callbacks.items():
+                    extra.setdefault(cs.caller.qual, []).extend(f.qual for f in cbs)
     reach = cg.reachable([g.qual for g in gens], extra=extra)
     reach_funcs = [prog.functions[q] for q in sorted(reach)]
     rep.extra["generate_reach"] = len(reach_funcs)
@@ -198,8 +204,38 @@ def classify_set(eng, rep, f, n, pm, jb, reach) -> None:
         if isinstance(par, ast.For) and par.iter is cur:
             rep.violation("R17.1", f.file, f.qual, site, "set is iterated directly in a for loop on a generate path")
             return
-        if isinstance(par, (ast.Assign, ast.AnnAssign)):
-            rep.undecided("R17.1", f.file, f.qual, site, "set stored in a variable; uses not followed")
+        if isinstance(par, (ast.Assign, ast.AnnAssign)) or (isinstance(par, ast.Dict) and cur in par.values):
+            # stored in a variable, or under a constant key of a dict literal: find iterations over it
+            pats = []
+            if isinstance(par, ast.Dict):
+                k = par.keys[par.values.index(cur)]
+                if isinstance(k, ast.Constant):
+                    pats.append(("key", k.value))
+            else:
+                t = par.targets[0] if isinstance(par, ast.Assign) else par.target
+                if isinstance(t, ast.Name):
+                    pats.append(("name", t.id))
+            if not pats:
+                rep.undecided("R17.1", f.file, f.qual, site, "set stored in a place that is not followed")
+                return
+            bad = []
+            for x in ast.walk(f.node):
+                its = []
+                if isinstance(x, (ast.For,)):
+                    its.append((x.iter, x))
+                elif isinstance(x, ast.comprehension):
+                    its.append((x.iter, x))
+                elif isinstance(x, ast.Call) and (dotted(x.func) in ("list", "tuple") or (isinstance(x.func, ast.Attribute) and x.func.attr == "join")) and x.args:
+                    its.append((x.args[0], x))
+                for it, node in its:
+                    for kind, val in pats:
+                        hit = (kind == "name" and isinstance(it, ast.Name) and it.id == val) or (kind == "key" and isinstance(it, ast.Subscript) and isinstance(it.slice, ast.Constant) and it.slice.value == val)
+                        if hit:
+                            bad.append(norm(it, 50))
+            if bad:
+                rep.violation("R17.1", f.file, f.qual, site, "the set is later iterated in hash order (%s) on a generate path: the emitted order depends on PYTHONHASHSEED" % bad[0])
+            else:
+                rep.ok("R17.1", f.file, f.qual, site, "set is stored but never iterated in this function")
             return
         if isinstance(par, ast.Call) and isinstance(par.func, ast.Attribute) and par.func.attr == "join":
             rep.violation("R17.1", f.file, f.qual, site, "set joined into text: order depends on PYTHONHASHSEED")
@@ -263,14 +299,22 @@ def r172(eng, rep, reach) -> None:
                 continue
             # reads of the same object on generate paths
             readers = []
-            for (cls_q, attr) in aliases:
-                for g in prog.functions.values():
-                    if g.cls is not None and g.cls.qual == cls_q and g.qual in reach:
-                        for x in ast.walk(g.node):
-                            if isinstance(x, ast.Attribute) and isinstance(x.ctx, ast.Load) and norm(x) == "self.%s" % attr:
-                                par_store = any(isinstance(s, (ast.Subscript,)) and s.value is x and isinstance(s.ctx, ast.Store) for s in ast.walk(g.node))
-                                if not par_store:
-                                    readers.append(g.qual)
+            default_is_instance = isinstance(d, ast.Call) and (lambda r: bool(r) and r[0] == "class")(prog.resolve_expr_symbol(f.module, f, d.func))
+            for (cls_q, attr, akind) in aliases:
+                if default_is_instance and akind == "holder":
+                    continue  # a reference to the shared object, not its state
+                for gq in reach:
+                    g = prog.functions[gq]
+                    gt = eng.T.fn(g)
+                    for x in ast.walk(g.node):
+                        if isinstance(x, ast.Attribute) and isinstance(x.ctx, ast.Load) and x.attr == attr:
+                            own = g.cls is not None and g.cls.qual == cls_q and norm(x.value) == "self"
+                            typed = any(u == ("inst", cls_q) for u in members(gt.of(x.value)))
+                            if not (own or typed):
+                                continue
+                            par_store = any(isinstance(s_, (ast.Subscript,)) and s_.value is x and isinstance(s_.ctx, ast.Store) for s_ in ast.walk(g.node))
+                            if not par_store:
+                                readers.append(g.qual)
             direct = [w for w in writes if w[0] == f.qual and f.qual in reach]
             if direct:
                 rep.violation("R17.2", f.file, f.qual, site, "the shared default object is mutated in place (%s) on a generate path and used there: what one call stores is seen by every later call" % direct[0][1])
@@ -321,10 +365,10 @@ def writes_through(eng, f: FuncInfo, pname: str):
     # self.attr = pname
     for n in walk_local(f.node):
         if isinstance(n, ast.Assign) and isinstance(n.value, ast.Name) and n.value.id == pname and isinstance(n.targets[0], ast.Attribute) and isinstance(n.targets[0].value, ast.Name) and n.targets[0].value.id == "self" and f.cls is not None:
-            aliases.append((f.cls.qual, n.targets[0].attr))
+            aliases.append((f.cls.qual, n.targets[0].attr, "holder"))
     # passed on positionally to a constructor that stores it (one level): Logger({}) style defaults are objects themselves
     a = f.node.args
-    for (cls_q, attr) in list(aliases):
+    for (cls_q, attr, _k) in list(aliases):
         ci = prog.classes[cls_q]
         for m in ci.methods.values():
             for kind, tgt, st in stores_in(m.node):
@@ -342,7 +386,7 @@ def writes_through(eng, f: FuncInfo, pname: str):
                     if g.cls is not None:
                         for k, t, s_ in stores_in(g.node):
                             if norm(t).startswith("self."):
-                                aliases.append((g.cls.qual, norm(t).split(".")[1].split("[")[0]))
+                                aliases.append((g.cls.qual, norm(t).split(".")[1].split("[")[0], "state"))
         # param handed to another function whose same-position parameter is written
         if isinstance(n, ast.Call):
             for i, arg in enumerate(n.args):
@@ -372,68 +416,143 @@ def r173(eng, rep, gens, reach) -> None:
                 return True
         return False
 
-    fresh_cache: Dict[Tuple[str, str], Optional[bool]] = {}
+    # freshness: None (caller's object) | ("deep", set()) | ("shallow", {attrs rebound to fresh values})
+    fresh_cache: Dict[Tuple[str, str], object] = {}
 
-    def fresh_expr(f: FuncInfo, e: ast.AST, depth=0) -> bool:
-        """Is the object denoted by e created within this generation (not the caller's schema)?"""
-        if depth > 6:
-            return False
+    def rebound_attrs(f: FuncInfo, name: str, depth: int) -> Set[str]:
+        out = set()
+        for n in walk_local(f.node):
+            if isinstance(n, ast.Assign) and isinstance(n.targets[0], ast.Attribute) and isinstance(n.targets[0].value, ast.Name) and n.targets[0].value.id == name:
+                if fresh_expr(f, n.value, depth + 1) is not None:
+                    out.add(n.targets[0].attr)
+        return out
+
+    def meet(a, b):
+        if a is None or b is None:
+            return None
+        if a[0] == "deep" and b[0] == "deep":
+            return ("deep", set())
+        sa = a[1] if a[0] == "shallow" else None
+        sb = b[1] if b[0] == "shallow" else None
+        if sa is None:
+            return ("shallow", set(sb))
+        if sb is None:
+            return ("shallow", set(sa))
+        return ("shallow", sa & sb)
+
+    def fresh_expr(f: FuncInfo, e: ast.AST, depth=0):
+        """Freshness of the object denoted by e (created within this generation?)."""
+        if depth > 8:
+            return None
         if isinstance(e, ast.Call):
             d = (dotted(e.func) or "").split(".")[-1]
-            if d in ("copy", "deepcopy", "replace"):
-                return d == "deepcopy" or True
+            if d == "deepcopy":
+                return ("deep", set())
+            if d in ("copy", "replace"):
+                return ("shallow", set())
+            if d in ("list", "dict", "set", "sorted", "tuple") and isinstance(e.func, ast.Name):
+                return ("shallow", set())
             r = prog.resolve_expr_symbol(f.module, f, e.func) if isinstance(e.func, (ast.Name, ast.Attribute)) else None
             if r and r[0] == "class":
-                return True
+                # a new object; deep-fresh if everything handed to the constructor is fresh or immutable
+                ftf = T.fn(f)
+                alldeep = True
+                for a_ in list(e.args) + [k.value for k in e.keywords]:
+                    if isinstance(a_, ast.Constant):
+                        continue
+                    ta = ftf.of(a_)
+                    if ta is not None and all(u[0] in ("prim", "none") for u in members(ta)):
+                        continue
+                    if fresh_expr(f, a_, depth + 1) is None:
+                        alldeep = False
+                return ("deep", set()) if alldeep else ("shallow", set())
             cs = cg.site_of.get(id(e))
-            if cs and cs.callees and all(returns_fresh(prog.functions[c], depth + 1) for c in cs.callees if c in prog.functions):
-                return True
-            return False
-        if isinstance(e, (ast.List, ast.Dict, ast.ListComp, ast.DictComp, ast.Tuple)):
-            return True
+            if cs and cs.callees:
+                lv = ("deep", set())
+                for c in cs.callees:
+                    if c not in prog.functions:
+                        return None
+                    lv = meet(lv, returns_fresh(prog.functions[c], depth + 1))
+                    if lv is None:
+                        return None
+                return lv
+            return None
+        if isinstance(e, (ast.List, ast.Dict, ast.ListComp, ast.DictComp, ast.Tuple, ast.Set)):
+            return ("shallow", set())
         if isinstance(e, ast.Name):
             defs = Defs(f.node)
             vals = [(k, v) for k, v, st in defs.values(e.id)]
             if vals:
-                return all(k == "assign" and v is not None and fresh_expr(f, v, depth + 1) for k, v in vals)
+                lv = ("deep", set())
+                for k, v in vals:
+                    if k != "assign" or v is None:
+                        return None
+                    if isinstance(v, ast.Name) and v.id == e.id:
+                        continue
+                    lv = meet(lv, fresh_expr(f, v, depth + 1))
+                    if lv is None:
+                        return None
+                if lv[0] == "shallow":
+                    lv = ("shallow", set(lv[1]) | rebound_attrs(f, e.id, depth))
+                return lv
             if e.id in [p.arg for p in f.params]:
                 return fresh_param(f, e.id, depth + 1)
-            return False
+            return None
         if isinstance(e, ast.Attribute):
             if isinstance(e.value, ast.Name) and e.value.id == "self" and f.cls is not None:
-                # self.attr assigned a fresh constructor in __init__ (object owned by self)
                 init = prog.find_method(f.cls, "__init__")
                 if init is not None:
                     for n in walk_local(init.node):
-                        if isinstance(n, ast.Assign) and norm(n.targets[0]) == norm(e) and fresh_expr(init, n.value, depth + 1):
-                            return True
+                        if isinstance(n, ast.Assign) and norm(n.targets[0]) == norm(e):
+                            lv = fresh_expr(init, n.value, depth + 1)
+                            if lv is not None:
+                                return lv
                 if f.cls.qual.startswith(SPEC_PREFIX) or f.name in ("__init__", "__post_init__"):
-                    return fresh_param(f, "self", depth + 1)
-                return False
-            return fresh_expr(f, e.value, depth + 1)
+                    base = fresh_param(f, "self", depth + 1)
+                    if base is None:
+                        return None
+                    if base[0] == "deep" or e.attr in base[1]:
+                        return ("shallow", set()) if base[0] != "deep" else ("deep", set())
+                    return None
+                return None
+            base = fresh_expr(f, e.value, depth + 1)
+            if base is None:
+                return None
+            if base[0] == "deep":
+                return ("deep", set())
+            if e.attr in base[1]:
+                return ("shallow", set())
+            return None  # attribute of a shallow copy: still the caller's object
         if isinstance(e, ast.Subscript):
-            return fresh_expr(f, e.value, depth + 1)
-        return False
+            base = fresh_expr(f, e.value, depth + 1)
+            return ("deep", set()) if base is not None and base[0] == "deep" else None
+        return None
 
-    def returns_fresh(g: FuncInfo, depth=0) -> bool:
+    def returns_fresh(g: FuncInfo, depth=0):
         rets = [n.value for n in walk_local(g.node) if isinstance(n, ast.Return) and n.value is not None]
-        return bool(rets) and all(fresh_expr(g, r, depth + 1) for r in rets)
+        if not rets:
+            return None
+        lv = ("deep", set())
+        for r in rets:
+            lv = meet(lv, fresh_expr(g, r, depth + 1))
+            if lv is None:
+                return None
+        return lv
 
-    def fresh_param(g: FuncInfo, pname: str, depth=0) -> bool:
+    def fresh_param(g: FuncInfo, pname: str, depth=0):
         key = (g.qual, pname)
         if key in fresh_cache:
-            return bool(fresh_cache[key])
-        fresh_cache[key] = False  # cycle guard
+            return fresh_cache[key]
+        fresh_cache[key] = None  # cycle guard
         if g.name in ("__init__", "__post_init__") and pname == "self":
-            fresh_cache[key] = True
-            return True
+            fresh_cache[key] = ("shallow", {"*"})
+            return fresh_cache[key]
         gps = [p.arg for p in g.params]
         idx = gps.index(pname)
         callers = [cs for cs in cg.callers_of(g.qual) if cs.caller.qual in reach and cs.how != "by-name"]
         if not callers:
-            fresh_cache[key] = False
-            return False
-        ok = True
+            return None
+        lv = ("deep", set())
         for cs in callers:
             off = 1 if (g.cls is not None and gps and gps[0] == "self" and isinstance(cs.node.func, ast.Attribute)) else 0
             if pname == "self" and off:
@@ -441,11 +560,14 @@ def r173(eng, rep, gens, reach) -> None:
             else:
                 ai = idx - off
                 arg = cs.node.args[ai] if 0 <= ai < len(cs.node.args) else next((k.value for k in cs.node.keywords if k.arg == pname), None)
-            if arg is None or not fresh_expr(cs.caller, arg, depth + 1):
-                ok = False
+            if arg is None:
+                lv = None
                 break
-        fresh_cache[key] = ok
-        return ok
+            lv = meet(lv, fresh_expr(cs.caller, arg, depth + 1))
+            if lv is None:
+                break
+        fresh_cache[key] = lv
+        return lv
 
     n = 0
     for q in sorted(reach):
@@ -464,7 +586,10 @@ def r173(eng, rep, gens, reach) -> None:
                 if not (isinstance(obj, ast.Attribute) and is_spec_type(ft.of(obj.value))):
                     continue
             n += 1
-            ok = fresh_expr(f, obj)
+            lv = fresh_expr(f, obj)
+            if lv is None and isinstance(obj, ast.Attribute) and isinstance(obj.value, ast.Name) and obj.value.id == "self" and f.name in ("__init__", "__post_init__"):
+                lv = ("shallow", set())
+            ok = lv is not None
             rep.check(ok, "R17.3", f.file, f.qual, norm(st, 70), "mutates an object created during this generation",
                       "a schema object reachable from the caller's `fcp` is mutated during generation: generating twice (or another generator afterwards) sees a changed schema")
     rep.floor("R17.3", "stores on schema-typed objects on generate paths", n, 3)
